@@ -3,3 +3,4 @@ import NibiruModel.Epochs
 import NibiruModel.SdkDec
 import NibiruModel.Inflation
 import NibiruModel.Oracle
+import NibiruModel.OracleVotes
